@@ -338,7 +338,9 @@ CONFIG = {
                       "Proofs/ScalarMultRefine, ScalarBaseMultRefine, DoubleScalarMultRefine prove that for every scalar and every valid point "
                       "ScalarMult, ScalarBaseMult (with the translated basepointTable; the generator is decoded by the kernel) and "
                       "VarTimeDoubleScalarBaseMult return valid points standing for x•g, x•B and a•gA+b•B in the curve group, with no table lookup "
-                      "out of range. PARTIAL: the transcription of scalarmult.go/tables.go is by hand (pinned and executed, not translated); "
+                      "out of range. Running that proved ScalarMult on the bytes of L in the kernel gives L•B = 0 in the curve group (Proofs/BaseOrder.order_B), "
+                      "hence the verification equation of every honest signature: VarTimeDoubleScalarBaseMult(k, -A, S) with A = s•B and S = (r+k·s) mod L "
+                      "stands for r•B (honest_signature_point). PARTIAL: the transcription of scalarmult.go/tables.go is by hand (pinned and executed, not translated); "
                       "SetBytesWithClamping is three byte operations followed by the translated scReduce (Model/Clamp.lean, proved to be the clamped integer mod L: "
                       "Proofs/Clamp); ModInverse (math/big) is not modelled. "
                       "Public keys must be 32 bytes (documented precondition).",
@@ -353,7 +355,7 @@ CONFIG = {
         "extra_modules": ["PatVerif.Proofs.Sig", "PatVerif.Proofs.DER", "PatVerif.Proofs.ScReduce", "PatVerif.Proofs.ScMulAdd", "PatVerif.Proofs.ScScalar",
                           "PatVerif.Proofs.FeCarry", "PatVerif.Proofs.FeMul", "PatVerif.Proofs.FeMisc", "PatVerif.Proofs.FeBytes", "PatVerif.Proofs.FePow",
                           "PatVerif.Proofs.FeAbs", "PatVerif.Proofs.FeField", "PatVerif.Proofs.FeSqrt", "PatVerif.Proofs.EdPoints", "PatVerif.Proofs.EdDecode", "PatVerif.Proofs.SkelEd25519",
-                          "PatVerif.Proofs.PrimeP", "PatVerif.Proofs.FeInv", "PatVerif.Proofs.EdComplete", "PatVerif.Proofs.FeSqrtComplete", "PatVerif.Proofs.EdRefBridge", "PatVerif.Proofs.SkelScalarMult", "PatVerif.Proofs.EdAssoc", "PatVerif.Proofs.ScalarMultAlg", "PatVerif.Proofs.EdGroup", "PatVerif.Proofs.Recode", "PatVerif.Proofs.ScalarMultLit", "PatVerif.Proofs.EdRepr", "PatVerif.Proofs.ScalarMultRefine", "PatVerif.Proofs.ScalarBaseMultRefine", "PatVerif.Proofs.DoubleScalarMultRefine", "PatVerif.Proofs.Clamp", "PatVerif.Proofs.ScalarGlue", "PatVerif.Proofs.EdRefGroup", "PatVerif.Props.C14Mult", "PatVerif.Props.C14Gen"],
+                          "PatVerif.Proofs.PrimeP", "PatVerif.Proofs.FeInv", "PatVerif.Proofs.EdComplete", "PatVerif.Proofs.FeSqrtComplete", "PatVerif.Proofs.EdRefBridge", "PatVerif.Proofs.SkelScalarMult", "PatVerif.Proofs.EdAssoc", "PatVerif.Proofs.ScalarMultAlg", "PatVerif.Proofs.EdGroup", "PatVerif.Proofs.Recode", "PatVerif.Proofs.ScalarMultLit", "PatVerif.Proofs.EdRepr", "PatVerif.Proofs.ScalarMultRefine", "PatVerif.Proofs.ScalarBaseMultRefine", "PatVerif.Proofs.DoubleScalarMultRefine", "PatVerif.Proofs.Clamp", "PatVerif.Proofs.ScalarGlue", "PatVerif.Proofs.EdRefGroup", "PatVerif.Proofs.BaseOrder", "PatVerif.Props.C14Mult", "PatVerif.Props.C14Gen"],
         "contradicts": "PatVerif.Props.C14, PatVerif.Props.C14Gen, PatVerif.Props.C14Mult",
     },
     "C15": {
@@ -384,7 +386,7 @@ CONFIG = {
         "extra_modules": ["PatVerif.Proofs.Group", "PatVerif.Proofs.Sig", "PatVerif.Proofs.ScReduce", "PatVerif.Proofs.ScMulAdd", "PatVerif.Proofs.ScScalar",
                           "PatVerif.Proofs.FeCarry", "PatVerif.Proofs.FeMul", "PatVerif.Proofs.FeMisc", "PatVerif.Proofs.FeBytes", "PatVerif.Proofs.FePow",
                           "PatVerif.Proofs.FeAbs", "PatVerif.Proofs.FeField", "PatVerif.Proofs.FeSqrt", "PatVerif.Proofs.EdPoints", "PatVerif.Proofs.EdDecode", "PatVerif.Proofs.SkelEd25519",
-                          "PatVerif.Proofs.PrimeP", "PatVerif.Proofs.FeInv", "PatVerif.Proofs.EdComplete", "PatVerif.Proofs.FeSqrtComplete", "PatVerif.Proofs.EdRefBridge", "PatVerif.Proofs.SkelScalarMult", "PatVerif.Proofs.EdAssoc", "PatVerif.Proofs.ScalarMultAlg", "PatVerif.Proofs.EdGroup", "PatVerif.Proofs.Recode", "PatVerif.Proofs.ScalarMultLit", "PatVerif.Proofs.EdRepr", "PatVerif.Proofs.ScalarMultRefine", "PatVerif.Proofs.ScalarBaseMultRefine", "PatVerif.Proofs.DoubleScalarMultRefine", "PatVerif.Proofs.Clamp", "PatVerif.Proofs.ScalarGlue", "PatVerif.Proofs.EdRefGroup", "PatVerif.Props.C14Mult", "PatVerif.Props.C14Gen"],
+                          "PatVerif.Proofs.PrimeP", "PatVerif.Proofs.FeInv", "PatVerif.Proofs.EdComplete", "PatVerif.Proofs.FeSqrtComplete", "PatVerif.Proofs.EdRefBridge", "PatVerif.Proofs.SkelScalarMult", "PatVerif.Proofs.EdAssoc", "PatVerif.Proofs.ScalarMultAlg", "PatVerif.Proofs.EdGroup", "PatVerif.Proofs.Recode", "PatVerif.Proofs.ScalarMultLit", "PatVerif.Proofs.EdRepr", "PatVerif.Proofs.ScalarMultRefine", "PatVerif.Proofs.ScalarBaseMultRefine", "PatVerif.Proofs.DoubleScalarMultRefine", "PatVerif.Proofs.Clamp", "PatVerif.Proofs.ScalarGlue", "PatVerif.Proofs.EdRefGroup", "PatVerif.Proofs.BaseOrder", "PatVerif.Props.C14Mult", "PatVerif.Props.C14Gen"],
         "contradicts": "PatVerif.Props.C15",
     },
     "C16": {
